@@ -165,21 +165,41 @@ def BlockInfo.globalId (bi : BlockInfo) (c : Coord) : Nat := bi.replicas.idxOf c
 
 def blockInfo (cfg : Config) (b : Block) : BlockInfo := ⟨b.id, counts cfg b.repl, b.onlyOne⟩
 
-/-! ## Execution graph (scheduler.rs:275-299) -/
+/-! ## Execution graph (scheduler.rs:275-316)
 
-/-- the test deciding whether `from_coord → to_coord` is connected -/
+  History: before commit 3deb123 ("fix: forward connections never leave a producer replica without
+  a consumer") there was no `orphan` branch: a producer replica of an `OnlyOne` link without a
+  same-(host, replica) consumer, towards a block with more than one replica, got NO consumer and
+  its output was silently dropped by `End` (finding F4; witness: 4 local cores,
+  `Unlimited → Limited(3)`, producer replica `(0,0,3)`; the real job lost 25 of 100 elements). -/
+
+/-- the test deciding whether `from_coord → to_coord` is connected in the inner loop -/
 def connects (fromOnlyOne fragile : Bool) (toLen : Nat) (f t : Coord) : Bool :=
   if fromOnlyOne || fragile then
     toLen == 1 || (t.host == f.host && t.replica == f.replica)
   else true
 
-/-- the consumers of producer replica `f` on one job-graph edge -/
+/-- `orphan` (scheduler.rs:286-292): a non-fragile `OnlyOne` producer replica without
+    same-(host, replica) consumer, towards a block with more than one replica -/
+def orphan (fromOnlyOne fragile : Bool) (tos : List Coord) (f : Coord) : Bool :=
+  fromOnlyOne && !fragile && decide (tos.length > 1) &&
+    !tos.any (fun t => t.host == f.host && t.replica == f.replica)
+
+/-- The consumers of producer replica `f` on one job-graph edge, in `connect` order: first the
+    fallback of an orphan, `sorted[global_ids[from_coord] % sorted.len()]`, then the inner loop.
+    `sorted` is `to.replicas`: the model builds it in coordinate order already
+    (`Lemmas/Placement.replicas_sorted`). -/
 def consumers (from_ to : BlockInfo) (fragile : Bool) (f : Coord) : List Coord :=
+  (if orphan from_.onlyOne fragile to.replicas f then
+    match to.replicas[from_.globalId f % to.replicas.length]? with
+    | some t => [t]
+    | none => []
+   else []) ++
   to.replicas.filter (connects from_.onlyOne fragile to.replicas.length f)
 
 /-- the producers of consumer replica `t` on one job-graph edge -/
 def producers (from_ to : BlockInfo) (fragile : Bool) (t : Coord) : List Coord :=
-  from_.replicas.filter (fun f => connects from_.onlyOne fragile to.replicas.length f t)
+  from_.replicas.filter (fun f => (consumers from_ to fragile f).contains t)
 
 /-- all links of one job-graph edge -/
 def edgeLinks (from_ to : BlockInfo) (fragile : Bool) : List Link :=
